@@ -54,14 +54,14 @@ func (g *c08gate) releaseOne(tok string) {
 }
 
 type c08env struct {
-	env      *c19env
-	local    base.LocalNode
-	others   []base.LocalNode
-	gate     *c08gate
-	mimic    func(base.Ballot)
-	mu       sync.Mutex
-	sent     []string // what reached the network, in order: "<key>=<fact number>"
-	factNo   map[string]int
+	env    *c19env
+	local  base.LocalNode
+	others []base.LocalNode
+	gate   *c08gate
+	mimic  func(base.Ballot)
+	mu     sync.Mutex
+	sent   []string // what reached the network, in order: "<key>=<fact number>"
+	factNo map[string]int
 }
 
 // a ballot pool whose reads work and whose writes fail from the `okWrites`-th write on (a full disk)
